@@ -159,11 +159,14 @@ func (w *World) asyncOracle(where string) {
 			continue
 		}
 		if r.user >= 0 && (r.kind == "asyncwrite" || r.kind == "asyncwritev") {
+			// w.asyncs is in issue order: the execution stamps of one goroutine's
+			// writes on one loop must increase along it
 			k := key{r.user, r.cbTask}
-			if r.seq < last[k] {
-				w.violate("C03", "order", "user %d: asynchronous write #%d on loop %s was carried out after a later one (#%d)", r.user, r.seq, r.cbTask, last[k])
+			if r.execSeq < last[k] {
+				w.violate("C03", "order", "user %d: asynchronous write #%d (request %d) on loop %s was carried out before one the same goroutine had issued earlier", r.user, r.seq, r.id, r.cbTask)
+				w.violate("C02", "async-order", "user %d: asynchronous write #%d (request %d) on loop %s took effect before one the same goroutine had issued earlier", r.user, r.seq, r.id, r.cbTask)
 			}
-			last[k] = max(last[k], r.seq)
+			last[k] = max(last[k], r.execSeq)
 		}
 	}
 }
